@@ -351,12 +351,19 @@ def _key_eq(a, b):
 def arr_subscript(interp, arr: SArr, idx):
     if not isinstance(idx, tuple):
         idx = (idx,)
-    if len(idx) > arr.ndim:
+    if len([i for i in idx if i is not None]) > arr.ndim:
         raise PyRaise(IndexError("too many indices for array"))
     # element access / views
-    maps = []  # per source axis: ("fix", term) | ("slice", start, length)
+    maps = []  # per source axis: ("fix", term) | ("slice", start, length); ("new",) for np.newaxis
     new_shape = []
-    for ax, ix in enumerate(idx):
+    ax = -1
+    for ix in idx:
+        if ix is None:
+            # np.newaxis: an axis of extent 1 that consumes no source axis
+            maps.append(("new",))
+            new_shape.append(1)
+            continue
+        ax += 1
         n = _len_term(arr.shape[ax])
         ix = interp.resolve(ix)
         if isinstance(ix, slice):
@@ -382,9 +389,9 @@ def arr_subscript(interp, arr: SArr, idx):
             return SArr((sel.length, *arr.shape[1:]), lambda ii: base.get((pick(ii[0]), *ii[1:])), arr.dtype)
         else:
             maps.append(("fix", _norm_index(interp, ix, n)))
-    for ax in range(len(idx), arr.ndim):
+    for ax2 in range(ax + 1, arr.ndim):
         maps.append(("slice", z3.IntVal(0)))
-        new_shape.append(arr.shape[ax])
+        new_shape.append(arr.shape[ax2])
 
     def to_base(vidx, maps=maps):
         out = []
@@ -392,6 +399,8 @@ def arr_subscript(interp, arr: SArr, idx):
         for m in maps:
             if m[0] == "fix":
                 out.append(m[1])
+            elif m[0] == "new":
+                next(it)
             else:
                 out.append(z3.simplify(next(it) + m[1]))
         return tuple(out)
